@@ -12,6 +12,7 @@ from vf.writers import vhdx as w
 
 ID = "C03"
 LEVEL = "exploration"
+CONTRACTS = True  # icontract postconditions on AlignedStream.read/peek/seek fire during this workload too
 STEP_BUDGET = 3_000_000  # line events per case; a case that exceeds it is reported as non-termination
 ANCHOR_FILES = ["dissect/hypervisor/disk/vhdx.py"]
 RULE = (
